@@ -253,7 +253,7 @@ func TestC19ResponseHeaderTimeout(t *testing.T) {
 	defer up.Close()
 	upURL, _ := url.Parse(up.URL)
 	defer transport.SetConfig(&config.Config{})
-	hx.Check(t, hx.Scale(15, 200), func(t *rapid.T) {
+	hx.Check(t, hx.Scale(40, 300), func(t *rapid.T) {
 		T := time.Duration(rapid.IntRange(150, 400).Draw(t, "T_ms")) * time.Millisecond
 		slow := rapid.Bool().Draw(t, "slow")
 		D := time.Duration(0)
